@@ -287,6 +287,13 @@ func newSysEnv(x *X, o sysOpts) (*sysEnv, error) {
 	env.srv = createHTTPServer(cfg, h)
 	ln := env.net.Listen(heliosAddr)
 	go env.srv.Serve(ln)
+	// Helios' own tickers (probes, cleanup) started at t=0 and fire on whole seconds. Everything
+	// the harness schedules starts 137 ms later, so that a harness-made instant never ties with
+	// a Helios tick: a `select` with two ready cases (tick vs shutdown) is decided by the Go
+	// runtime's own random choice, which no seed controls.
+	if !o.free {
+		time.Sleep(137 * time.Millisecond)
+	}
 	return env, nil
 }
 
